@@ -57,6 +57,22 @@ class _Real(Sort):
 INT, BOOL, REAL = _Int(), _Bool(), _Real()
 
 
+class BV(Sort):
+    """fixed-width machine integer (C++ front end)"""
+
+    def __init__(self, width, signed=False):
+        self.width, self.signed = width, signed
+
+    def z3sort(self):
+        return z3.BitVecSort(self.width)
+
+    def fresh(self, name):
+        return z3.BitVec(fresh_name(name), self.width)
+
+    def __repr__(self):
+        return "BV(%d,%s)" % (self.width, "s" if self.signed else "u")
+
+
 class REF(Sort):
     """Reference to a heap object of class cls; 0 is None."""
 
@@ -281,6 +297,8 @@ def sort_of(v):
             return BOOL
         if s == z3.RealSort():
             return REAL
+        if isinstance(s, z3.BitVecSortRef):
+            return BV(s.size())
         raise Unsupported("sort_of %s" % s)
     if isinstance(v, VRef):
         return REF(v.cls)
